@@ -41,6 +41,8 @@ def main():
     if os.environ.get("MUT_TEST"):
         t = sh("go test -vet=off -count=1 ./internal/... 2>&1 | tail -15", cwd=SCR)
         print("tests:", "ok" if "FAIL" not in t.stdout else "FAIL\n" + t.stdout)
+    os.makedirs("/tmp/mysync-mut-verif", exist_ok=True)  # scratch VERIF_DIR: evidence of mutant runs must not land in /verif
+    import shutil; shutil.copy("/verif/known_findings.json", "/tmp/mysync-mut-verif/")
     for prop in props.split(","):
         r = subprocess.run(["timeout", "300", "/verif/bin/mysyncsa", "check", prop], capture_output=True, text=True, errors="replace",
                            env=dict(ENV, MYSYNC_REPO=SCR, VERIF_DIR="/tmp/mysync-mut-verif"))
